@@ -100,7 +100,7 @@ def c08(ctx, replay):
 # ---------------------------------------------------------------------------------------------
 # Concurrent core: WSConn model (M) + seeded concurrent executions validated by TraceConn/TraceWire (C)
 
-from core import trace_validate, absorb_rejections
+from core import trace_validate, absorb_rejections, repo_tests_traced
 
 SIG_C05 = {"lock-acquired-while-held", "lock-acquired-after-connection-closed", "forcelock-acquired-while-held",
            "frame-step-without-frame-lock", "frame-emitted-without-frame-lock", "data-frame-without-message-lock",
@@ -115,7 +115,7 @@ SIG_C02 = {"masking-wrong-for-role", "rsv2-or-rsv3-set", "length-not-minimally-e
            "header-undecodable", "length-beyond-2^31", "mask-key-not-refreshed", "second-close-frame", "data-frame-after-close-frame",
            "peer-received-corrupt-message"}
 SIG_C15 = {"ping-returned-nil-without-its-own-pong", "pong-matched-against-wrong-ping-set", "pong-does-not-echo-next-ping"}
-SIG_C20 = {"library-goroutine-alive-when-close-returned", "timeoutloop-exited-with-connection-open",
+SIG_C20 = {"library-goroutine-alive-when-close-returned", "close-returned-with-connection-open", "timeoutloop-exited-with-connection-open",
            "closeread-goroutine-exited-with-connection-open"}
 SIG_C10 = {"timeoutloop-received-other-write-context", "write-context-handoff-never-received", "timeoutloop-received-unsent-write-context",
            "timeoutloop-received-other-read-context", "read-context-handoff-never-received", "timeoutloop-received-unsent-read-context",
@@ -164,6 +164,8 @@ def c16(ctx, replay):
     wsconn_model(ctx, ["quick"] if ctx.quick() else ["quick", "thorough"])
     wsconn_deviation_regression(ctx, ["DataAfterClose", "EchoAfterOwnClose"])
     conc_campaign(ctx, 300 if ctx.quick() else 4000, SIG_C16)
+    if not ctx.quick():
+        repo_tests_traced(ctx, SIG_C16)
     ctx.assumptions += ["raw peer frame parser cross-checked by TLC on the raw header bytes", "schedules are sampled (seeded), the model is exhaustive within its constants"]
 
 
@@ -171,6 +173,7 @@ def c16(ctx, replay):
 def c05(ctx, replay):
     wsconn_model(ctx, ["quick"] if ctx.quick() else ["quick", "thorough"])
     conc_campaign(ctx, 300 if ctx.quick() else 4000, SIG_C05)
+    repo_tests_traced(ctx, SIG_C05 - {"data-frame-by-non-owner-of-message"})
     race_campaign(ctx, 150 if ctx.quick() else 1500)
     ctx.assumptions += ["'no data race' is decided by the Go race detector on the same executions with the hook sink nil (rule R10)"]
 
@@ -225,6 +228,8 @@ def c15(ctx, replay):
 def c20(ctx, replay):
     wsconn_model(ctx, ["quick"] if ctx.quick() else ["quick", "thorough"])
     conc_campaign(ctx, 300 if ctx.quick() else 3000, SIG_C20)
+    if not ctx.quick():
+        repo_tests_traced(ctx, SIG_C20)
 
 
 @check("C06")
@@ -397,6 +402,8 @@ def c10(ctx, replay):
     rej, _ = trace_validate(ctx, "TraceConn", "TraceConn.cfg", conn, name="TraceConn(ctxprog)")
     absorb_rejections(ctx, rej, "TraceConn", conn, only=SIG_C10)
     conc_campaign(ctx, 150 if ctx.quick() else 2000, SIG_C10)
+    if not ctx.quick():
+        repo_tests_traced(ctx, SIG_C10)
     ctx.extra["rule"] = ("all programs of up to N successful calls from {Read of a fragmented message with an interleaved ping, Write, Writer with two chunks, "
                          "Ping} each under its own context cancelled right after success, optionally ended by a call whose context is cancelled while it is "
                          "blocked on the transport, inside a message, on the message lock or on a pong; x role x compression; afterwards a full round trip "
@@ -412,16 +419,20 @@ SIG_C07_TRACE = {"pooled-object-handed-out-while-owned-by-another-connection", "
 def c07(ctx, replay):
     rec, _ = ctx.tlc("WSPool", "WSPool.cfg", name="pool-ownership-model")
     ctx.count_model(rec)
-    rec, out = ctx.tlc("WSPool", "WSPool.dev.cfg", expect_ok=False, name="pool-ownership-model-with-pre-fix-deviation")
-    if "is violated" not in out:
-        raise Infra("model regression: ReadAgainUsesRef is no longer caught")
-    ctx.extra["model_catches_deviation"] = {"ReadAgainUsesRef": True}
+    caught = {}
+    for cfg, dev in (("WSPool.dev.cfg", "ReadAgainUsesRef"), ("WSPool.dev2.cfg", "PutWithoutClear")):
+        rec, out = ctx.tlc("WSPool", cfg, expect_ok=False, name="pool-ownership-model-with-deviation-" + dev)
+        caught[dev] = "is violated" in out
+        if not caught[dev]:
+            raise Infra("model regression: %s is no longer caught" % dev)
+    ctx.extra["model_catches_deviation"] = caught
     trace = ctx.path("pool.ndjson")
     rep = ctx.drive("pool", ["-n", 300 if ctx.quick() else 4000, "-seed", ctx.seed, "-pool-trace", trace], timeout=2400)
     ctx.absorb(rep)
     rej, _ = trace_validate(ctx, "TracePool", "TracePool.cfg", trace, name="TracePool")
     absorb_rejections(ctx, rej, "TracePool", trace, only=SIG_C07_TRACE)
     if not ctx.quick():
+        repo_tests_traced(ctx, set(), only_pool=SIG_C07_TRACE)
         # pool events of the concurrent campaign (many connections in flight at once), under the same ownership rules
         conn = ctx.path("conn.ndjson")
         ctx.drive("conc", ["-n", 600, "-seed", ctx.seed, "-conn-trace", conn, "-global-order"], timeout=2400)
